@@ -170,6 +170,7 @@ PLANS = {
             S("c07_surv", 1200, 36000),
             S("c07_resp", 600, 18000),
             S("c07_conc", 500, 15000),
+            S("c07_bp", 600, 18000),       # respondent contexts answering behind a busy connection (scenarios/c07b_backpressure.cc)
         ],
         "assumptions": ["sequential scenarios rely on sim_quiesce (horizon 3 ms > largest configured segment latency) to make "
                         "'the response has arrived' a definite point",
@@ -286,6 +287,38 @@ PLANS = {
             "previous one; write side: the simulated kernel cuts nng's write at the armed stream offset) for frames up "
             "to 130 bytes on the wire, pairs of read-side cuts for frames up to 24 bytes; message sizes, transports and "
             "roles are drawn per run, not enumerated",
+        ],
+    },
+    "C16": {
+        "level": "exploration",
+        "rule": NT_RULE + "; C16: ws - the application received data frames that were compared with the reference decode, "
+                          "a rule-breaking frame / start line was followed to the failure of the connection, or frames emitted "
+                          "by nng were parsed by the strict reference framer; http_srv - a request was answered and compared "
+                          "(handler view + response) or a malformed request line was followed to its error status / close; "
+                          "http_cli - a response (incl. chunked) was delivered and compared or a malformed status line / chunk "
+                          "size was followed to the failure of the exchange",
+        "budget_s": {"quick": 50, "thorough": 900},
+        "scenarios": [
+            # (the scenarios take an `avoid` bit mask, AV_* in scenarios/c16_codecs.cc, that steers the workload around
+            # an open finding; every finding made so far has been repaired in the library, so no bit is set)
+            S("c16_ws_srv", 700, 21000),
+            S("c16_ws_cli", 700, 21000),
+            S("c16_http_srv", 500, 15000),
+            S("c16_http_cli", 500, 15000),
+        ],
+        "assumptions": [
+            "the raw peer cuts its own byte stream (whole, one cut at every offset over the seeds, byte-at-a-time, random "
+            "pieces) and lets the library go idle (sim_quiesce) after every piece; nng's own reads and writes are cut by "
+            "the simulated kernel (net=1..3)",
+            "a rule violation must end in a CLOSE frame, EOF or reset seen by the raw peer within 3 s of virtual time "
+            "(stalls subtracted) and nothing at or after the offending frame may reach the application; frames before it "
+            "need not all be delivered",
+            "valid sessions stay inside what RFC 6455/7230 require of a sender (SP, not HTAB, as header whitespace; CRLF "
+            "line ends; no query string towards the ws listener); stricter RFC rules that the statement does not name "
+            "(fragmented control frames, data frame inside a fragmented message, header line without colon, wrong "
+            "Sec-WebSocket-Accept) are exercised and only recorded as probes",
+            "message mode of the ws stream layer is reached through the SP ws transport and through the stream option "
+            "'ws:msgmode' that the transport itself uses",
         ],
     },
 }
